@@ -1011,6 +1011,7 @@ def _verify_routing(kw, Es, sts, lims, pps, coes):
 
 
 SUBS = {'oaw': case_oaw, 'cm': case_cm}
+FUZZ = {'oaw': (OAW_SPEC, case_oaw), 'cm': (CM_SPEC, case_cm)}
 
 
 def run(ctx):
@@ -1018,6 +1019,9 @@ def run(ctx):
     _FEAS['designed'] = _FEAS['mesh'] = 0
     ctx.explore('oaw', OAW_SPEC, case_oaw, ctx.n(900, 3600))
     ctx.explore('cm', CM_SPEC, case_cm, ctx.n(300, 1200))
+    # coverage-guided campaigns over the same strategies / oracles
+    ctx.fuzz('oaw', ctx.n(250, 4000))
+    ctx.fuzz('cm', ctx.n(80, 1200))
     ctx.notes['designed_feasible'] = dict(_FEAS)
     if _FEAS['designed'] >= 40 and _FEAS['mesh'] < 0.6*_FEAS['designed']:
         raise HarnessError(
